@@ -189,9 +189,15 @@ func (u *Unit) Run() {
 		u.errs = append(u.errs, "function has no body")
 		return
 	}
-	if fn.Recover != nil {
-		u.errs = append(u.errs, "function uses recover (unsupported)")
-		return
+	for _, b := range fn.Blocks {
+		for _, in := range b.Instrs {
+			if c, ok := in.(*ssa.Call); ok {
+				if bi, ok := c.Call.Value.(*ssa.Builtin); ok && bi.Name() == "recover" {
+					u.errs = append(u.errs, "function calls recover (unsupported)")
+					return
+				}
+			}
+		}
 	}
 	st := &State{u: u, cellVal: map[*Cell]Value{}, heap: map[string]Term{}, pcSet: map[string]bool{}, written: map[string]bool{}, fresh: map[string]bool{}}
 	st.alloc = e.constNamed("alloc!0", SInt)
@@ -1554,7 +1560,13 @@ func (st *State) ghostAssign(env *Env, target, value *Expr) {
 			if env.pkg != nil {
 				pk = env.pkg.Name()
 			}
+			if env.callee != nil {
+				pk = env.callee.PkgName
+			}
 			gd := e.specs.Ghosts[pk+"."+target.Op]
+			if gd == nil {
+				gd = e.specs.Ghosts["prelude."+target.Op]
+			}
 			hn := "GH_" + sanitize(gd.PkgName+"_"+gd.Name)
 			st.heapSet(hn, g.Tm.Sort, v.Tm)
 			return
